@@ -318,7 +318,7 @@ def run(ctx):
                 continue
             fwd = body.reach([rd.target], stop={c.bb for c in sets})
             for y in sorted(yields & fwd):
-                if any(c.bb in body.reach([y]) for c in sets) and not any(r2.bb in body.reach([y], stop={c.bb for c in sets}) for r2 in reads if r2 is not rd and r2.target is not None and r2.bb != rd.bb and False):
+                if any(c.bb in body.reach([y]) for c in sets):
                     # a later re-read of the generation on the way would make the earlier one irrelevant: only the LAST read before the set counts
                     later = [r2 for r2 in reads if r2 is not rd and r2.bb in body.reach([y], stop={c.bb for c in sets})]
                     if not later:
